@@ -393,8 +393,13 @@ class LazyIndexer:
                 # Turn boolean mask into integer indices (True means keep that index)
                 if dim_keep.dtype == bool and len(dim_keep) == dim_len:
                     dim_keep = np.nonzero(dim_keep)[0]
-                elif np.any(np.diff(dim_keep) <= 0):
-                    raise TypeError('LazyIndexer cannot handle duplicate or unsorted advanced integer indices')
+                else:
+                    # Negative indices count from the end (do this before checking the order of the indices)
+                    dim_keep = np.where(dim_keep < 0, dim_keep + dim_len, dim_keep)
+                    if np.any(dim_keep < 0) or np.any(dim_keep >= dim_len):
+                        raise IndexError(f'Advanced integer index out of bounds for dimension of size {dim_len}')
+                    if np.any(np.diff(dim_keep) <= 0):
+                        raise TypeError('LazyIndexer cannot handle duplicate or unsorted advanced integer indices')
                 # Split indices into multiple contiguous segments (specified by first and one-past-last data indices)
                 jumps = np.nonzero(np.diff(dim_keep) > 1)[0]
                 first = [dim_keep[0]] + dim_keep[jumps + 1].tolist()
